@@ -185,8 +185,10 @@ def o122(ctx):
                 ctx.finding(q, e.node, f"Fourier layout offsets do not cancel ({e.name})", e.node, m)
     # structure of the soft band-pass: blurred(lp) - blurred(hp), high-pass: 1 - blurred
     it, r = run_filter(ctx, "bandpass", P("sigma"))
-    g = r.ret.gain
+    g = getattr(r.ret, "gain", None)
     m, fn = ctx.prog.func(CMAP + "bandpass")
+    if g is None:
+        raise Unsupported("bandpass (soft edge): no single gain extracted (the paths build the filter differently)", fn)
     ctx.count(1)
     ok = g.op == "sub" and all(tm.contains(x, lambda n: n.op == "call" and n.args[0] == "gaussian_blur") for x in g.args) \
         and tm.has_sym(g.args[0], "rl") and not tm.has_sym(g.args[0], "rh") and tm.has_sym(g.args[1], "rh") and not tm.has_sym(g.args[1], "rl")
@@ -194,8 +196,10 @@ def o122(ctx):
         ctx.finding(CMAP + "bandpass", "soft band gain", "the band gain must be (mask of the low-pass radius) - (mask of the high-pass radius)",
                     fn, m, extracted=tm.show(g)[:300])
     it, r = run_filter(ctx, "highpass", P("sigma"))
-    g = r.ret.gain
+    g = getattr(r.ret, "gain", None)
     m, fn = ctx.prog.func(CMAP + "highpass")
+    if g is None:
+        raise Unsupported("highpass (soft edge): no single gain extracted (the paths build the filter differently)", fn)
     ctx.count(1)
     if not (g.op == "sub" and tm.cval(g.args[0]) in (1, 1.0) and tm.contains(g.args[1], lambda n: n.op == "call" and n.args[0] == "gaussian_blur")):
         ctx.finding(CMAP + "highpass", "soft high-pass gain", "the high-pass gain must be 1 - (the low-pass mask)", fn, m, extracted=tm.show(g)[:300])
@@ -313,4 +317,4 @@ def _obligations():
 
 
 def obligations():
-    return _obligations() + [labels_obligation("C12"), selectors_obligation("C12"), effects_obligation("C12"), plumbing_obligation("C12"), overrides_obligation("C12"), options_obligation("C12")]
+    return _obligations() + [labels_obligation("C12"), selectors_obligation("C12"), effects_obligation("C12"), plumbing_obligation("C12"), overrides_obligation("C12"), options_obligation("C12"), handlers_obligation("C12")]
